@@ -139,6 +139,51 @@ fn projects(max_len: usize) -> Vec<Project> {
     out
 }
 
+/// Projects in which one source line emits into several segments (a file imported, a macro
+/// invoked, a loop body switching segments), built with listing and symbols.
+fn segment_projects(max_len: usize) -> Vec<Project> {
+    const PROLOGUE: &str = ".define segment {\nname = \"sa\"\nstart = $4000\n}\n.define segment {\nname = \"sb\"\nstart = $5000\n}\n.define segment {\nname = \"sc\"\nstart = $6000\n}\n.macro m3() {\nlda #3\n}\n";
+    const ITEMS: [&str; 9] = [
+        ".segment \"sa\" { .import * as i1 from \"f3.asm\" }",
+        ".segment \"sb\" { .import * as i2 from \"f3.asm\" }",
+        ".segment \"sc\" { .import * as i3 from \"f3.asm\" }",
+        ".segment \"sa\" { m3() }",
+        ".segment \"sb\" { m3() }",
+        ".segment \"sc\" { m3() }",
+        ".loop 3 { .segment \"sa\" { nop } .segment \"sb\" { nop } .segment \"sc\" { nop } }",
+        "m3()",
+        "nop",
+    ];
+    let mut out = vec![];
+    let n = ITEMS.len();
+    for len in 1..=max_len {
+        for code in 0..n.pow(len as u32) {
+            let mut c = code;
+            let mut lines = vec![];
+            for _ in 0..len {
+                lines.push(ITEMS[c % n]);
+                c /= n;
+            }
+            // (an import alias can be defined once only)
+            if (0..3).any(|k| lines.iter().filter(|l| **l == ITEMS[k]).count() > 1) {
+                continue;
+            }
+            let main = format!("{}{}\n", PROLOGUE, lines.join("\n"));
+            out.push(Project {
+                files: vec![
+                    ("main.asm".to_string(), main),
+                    ("f1.asm".to_string(), F1.to_string()),
+                    ("f2.asm".to_string(), F2.to_string()),
+                    ("f3.asm".to_string(), F3.to_string()),
+                    ("f4.asm".to_string(), F4.to_string()),
+                ],
+                toml: "[build]\nlisting = true\nsymbols = [\"vice\"]\n".into(),
+            });
+        }
+    }
+    out
+}
+
 fn artefact_kind(name: &str) -> String {
     if name == "stdout" || name == "stderr" || name == "exit" {
         name.to_string()
@@ -253,6 +298,7 @@ pub fn run(ctx: &Ctx, replay: Option<&Value>, rest: &[String]) -> i32 {
     }
 
     let mut projs = projects(if thorough { 3 } else { 2 });
+    projs.extend(segment_projects(if thorough { 4 } else { 3 }));
     // valid projects additionally with listing and symbols
     let extra: Vec<Project> = projs
         .iter()
@@ -341,7 +387,7 @@ pub fn run(ctx: &Ctx, replay: Option<&Value>, rest: &[String]) -> i32 {
     let _ = std::fs::remove_dir_all(&scratch);
     ctx.finish(
         "model_checking",
-        "every project (all statement sequences up to the length bound over 17 statements with defined/undefined names, macros, five import forms over four importable files (two of which import further files) and imports of two missing files, x clean imported files / a semantic error in one / syntax errors and missing imports in all of them, valid ones also with listing+VICE symbols) x every hash seed 0..N-1 fed to every RandomState of the real `mos` process by an LD_PRELOAD getrandom shim; states = distinct (project, output variant) pairs; transitions = process runs; every run is the implementation itself",
+        "every project (all statement sequences up to the length bound over 17 statements with defined/undefined names, macros, five import forms over four importable files (two of which import further files) and imports of two missing files, x clean imported files / a semantic error in one / syntax errors and missing imports in all of them, valid ones also with listing+VICE symbols; plus all sequences up to length 3 (quick) / 4 (thorough) over 9 statements in which one source line emits into up to three segments - a file imported, a macro invoked, a loop body switching segments - with listing+VICE symbols) x every hash seed 0..N-1 fed to every RandomState of the real `mos` process by an LD_PRELOAD getrandom shim; states = distinct (project, output variant) pairs; transitions = process runs; every run is the implementation itself",
         true,
         &[
             "exhaustive over (project, seed < N) only: the 2^128 seed space cannot be enumerated; the canary counters show how many iteration orders of a 2/3/4-element HashSet the N seeds produce",
